@@ -14,6 +14,18 @@ check("C20",
       "TLA+ spec (QSchedule/QExperiment) model-checked with TLC; TLC trace validation of recorded constructor verdicts; replay of TLC-emitted transition graph",
       "DESIGN.md §4 C20")
 
+check("C03",
+      "TLC model-checks QIndex for every configuration (type x d x m x parametrisation flag): the variable layout is injective, covers exactly the cells not implied by the equality constraint, preserves the stacked order, the two index maps are mutually inverse, implied cells are affine in non-implied ones, and the total index of an operation set (states, gates, povms, mprocesses) is a bijection; every configuration's layout is printed by TLC and replayed: real State/Povm/Gate/MProcess objects and variable vectors carry distinct labels and to_var, to_stacked_vector, generate_from_var, convert_var_to_stacked_vector, convert_stacked_vector_to_var, all eight convert_*_index_* functions, calc_gradient, SetQOperations total-index functions and the tomography classes' num_variables must reproduce the layout exactly, for every index.",
+      "Trusted: QIndex.tla layouts as the reading of the property; dimensions 2,3,4 (6 in thorough); labels are exactly representable floats so comparison is exact.",
+      "TLA+ spec (QIndex) model-checked with TLC; replay of TLC-emitted layouts into the implementation (exhaustive per configuration)",
+      "DESIGN.md §4 C03")
+
+check("C16",
+      "TLC model-checks QIndex/QProb: serial and multi-index maps mutually inverse and row-major on all shapes with <= 4 variables of 1..5 values; on every weight tensor of a bounded family (zeros and sub-threshold entries included) marginals keep the total, marginal of marginal is the marginal, and joint = marginal x conditional. Binding: every (shape, index) pair is run through index_util and the recorded lines are validated by TLC (Trace_C16); every tensor's exact marginals and conditionals printed by TLC are compared with MultinomialDistribution (constructor thresholding, accessors, marginalize, conditionalize) and validate_prob_dist.",
+      "Trusted: QProb.tla definitions; tiny entries concretised as 1e-12; degenerate cases (no retained variable, null conditioning events) unconstrained.",
+      "TLA+ spec (QIndex/QProb) model-checked with TLC; TLC trace validation of recorded index_util calls; replay of TLC-emitted tensors",
+      "DESIGN.md §4 C16")
+
 ALL = ["C%02d" % i for i in range(1, 21)]
 
 def main():
